@@ -38,7 +38,7 @@ impl Mnemonic {
     /// word length.
     ///
     /// This method returns an error if it fails if the specified mnemonic word
-    /// length is invalid (it must be in the range `12..=24`) or if there is an
+    /// length is invalid (it must be one of 12, 15, 18, 21 or 24) or if there is an
     /// error reading cryptographically strong entropy from the operating
     /// system.
     pub fn random(language: Language, mnemonic_length: usize) -> Result<Self> {
@@ -195,7 +195,10 @@ impl Deref for Seed {
 }
 
 fn mnemonic_to_byte_length(len: usize) -> Result<usize> {
-    ensure!(matches!(len, 12..=24), "invalid mnemonic length {len}");
+    ensure!(
+        matches!(len, 12 | 15 | 18 | 21 | 24),
+        "invalid mnemonic length {len}"
+    );
 
     // NOTE: Derived from the BIP-0039 spec where `CS` is the checksum bit
     // length, `ENT` is the entropy bit length (so `8 * byte_length`) and `MS`
